@@ -311,6 +311,8 @@ def _harness_hash(files, extra=''):
 
 def harness(config, flavour, name='xrlmon', extra_src=(), extra_flags=(), cxx=False, compiler=None):
     """compile a harness program (harness/<name>.c[pp]) against lib(config, flavour)"""
+    if flavour == 'meson':
+        return harness_meson(config, name)
     L = lib(config, flavour)
     st = sigtab()
     hh = _harness_hash([os.path.join(HARNESS, name + ('.cpp' if cxx else '.c'))] + [os.path.join(HARNESS, s) for s in extra_src], ' '.join(extra_flags) + (compiler or ''))
@@ -400,6 +402,37 @@ def failmon(config):
         _run(cmd)
     d = _target('hs-failmon-%s-%s' % (config, hh), mk)
     return os.path.join(d, 'failmon')
+
+
+def meson_lib(config):
+    """the library exactly as the project's own build system makes it (its compiler arguments, its visibility settings, its generator run):
+    a copy of the working tree (without .git) is built with meson in the cache; returns dict(dir, so, incs).  The hook guard is NOT defined."""
+    def mk(d):
+        src = os.path.join(d, 'tree')
+        _run(['rsync', '-a', '--exclude=.git', '--exclude=_build', '--exclude=_b', REPO + '/', src + '/'])
+        if config == 'kissel':
+            shutil.copyfile(kissel_dat(), os.path.join(src, 'data', 'kissel_pe.dat'))
+        b = os.path.join(d, 'b')
+        _run(['meson', 'setup', b, src, '-Dpython-bindings=disabled', '-Dpython-numpy-bindings=disabled', '-Dfortran-bindings=disabled'], timeout=1800)
+        _run(['meson', 'compile', '-C', b, 'xrl'], timeout=3600)
+        if not os.path.exists(os.path.join(b, 'src', 'libxrl.so')):
+            raise BuildError('meson did not produce src/libxrl.so')
+    d = _target('lib-%s-meson' % config, mk)
+    return dict(dir=os.path.join(d, 'b', 'src'), so=os.path.join(d, 'b', 'src', 'libxrl.so'), cfgdir=os.path.join(d, 'b'))
+
+
+def harness_meson(config, name='xrlmon'):
+    """harness program linked against meson_lib(config) (shared); the monitor sources are compiled with the plain flags"""
+    L = meson_lib(config)
+    st = sigtab()
+    hh = _harness_hash([os.path.join(HARNESS, name + '.c')])
+
+    def mk(d):
+        cmd = ['gcc', '-O2', '-g'] + CORE + ['-I' + L['cfgdir'], '-I' + os.path.join(REPO, 'src'), '-I' + os.path.join(REPO, 'include'), '-I' + REPO, '-I' + st, '-I' + HARNESS,
+               os.path.join(HARNESS, name + '.c'), '-o', os.path.join(d, name), '-L' + L['dir'], '-lxrl', '-Wl,-rpath,' + L['dir'], '-lm', '-lpthread', '-ldl']
+        _run(cmd)
+    d = _target('hm-%s-%s-%s' % (name, config, hh), mk)
+    return os.path.join(d, name)
 
 
 def locale_dir():
